@@ -313,6 +313,11 @@ theorem getIndex_canon (t r : Text) (i : Int) (h : t.getIndex i = .ok r) : Canon
     · cases h; exact fromChunks_canon _
     · cases h
 
+/-- `" " * n` really is made of spaces (the pad character is read from the source) -/
+theorem spaces_eq (n : Nat) : spaces n = List.replicate n ' ' := by
+  have : Gen.C08.padChar = ' ' := by decide
+  rw [spaces, this]
+
 /-- `s[:n].ljust(n)` on cells; for a negative `n` (outside the property) what the code does:
 `s[:n]` -/
 def pyFixedLen (cells : Cells) (n : Int) : Cells :=
@@ -372,5 +377,60 @@ theorem chunk_fixedLen_cells (c : Chunk) (n : Int) :
       simp [Part.cellsList, Part.cells, Chunk.cells, pySlice_map]
     · rw [if_neg (by omega), construct_cells, show (n - (c.text.length : Int)).toNat = 0 by omega]
       simp [Part.cellsList, Part.cells, spaces, plainCells]
+
+/-! ### iteration -/
+
+theorem pyIndex_nat {α} (l : List α) (k : Nat) :
+    pyIndex l (k : Int) = match l[k]? with
+      | some a => .ok a
+      | none => .error .indexError := by
+  unfold pyIndex
+  have h1 : ¬ ((k : Int) < 0) := by omega
+  simp only [h1, if_false, Int.toNat_natCast]
+
+/-- the iteration loop over an object whose `[k]` is `pyIndex` of a list yields that list -/
+theorem iterLoop_spec {α β} (l : List α) (f : α → β) (get : Nat → Except Err β)
+    (hget : ∀ k : Nat, get k = (pyIndex l (k : Int)).map f) (fuel k : Nat) (hf : l.length < fuel + k) :
+    iterLoop get fuel k = .ok ((l.drop k).map f) := by
+  induction fuel generalizing k with
+  | zero =>
+    unfold iterLoop
+    have : l.drop k = [] := List.drop_of_length_le (by omega)
+    omega
+  | succ fuel ih =>
+    unfold iterLoop
+    rw [hget k, pyIndex_nat]
+    cases hk : l[k]? with
+    | none =>
+      have : l.drop k = [] := List.drop_of_length_le (List.getElem?_eq_none_iff.mp hk)
+      simp [Except.map, this]
+    | some a =>
+      have hlt := (List.getElem?_eq_some_iff.mp hk).1
+      simp only [Except.map]
+      rw [ih (k + 1) (by omega)]
+      have hd : l.drop k = a :: l.drop (k + 1) := by
+        rw [List.drop_eq_getElem_cons hlt]
+        congr 1
+        exact (List.getElem?_eq_some_iff.mp hk).2
+      simp [hd]
+
+/-- `list(text)` is the list of the one-character texts of its cells -/
+theorem iter_spec (t : Text) (h : LenOK t) : t.iter = .ok (t.cells.map cellText) := by
+  unfold Text.iter
+  rw [iterLoop_spec t.cells cellText _ (fun k => getIndex_spec t h k) _ 0 (by omega)]
+  simp
+
+theorem chunk_getIndex_eq (c : Chunk) (i : Int) :
+    c.getIndex i = (pyIndex c.cells i).map (fun x => (⟨x.2, [x.1]⟩ : Chunk)) := by
+  unfold Chunk.getIndex
+  rw [Chunk.cells, pyIndex_map]
+  cases pyIndex c.text i <;> rfl
+
+/-- `list(chunk)` is the list of one-character chunks -/
+theorem chunk_iter_spec (c : Chunk) :
+    c.iter = .ok (c.cells.map (fun x => (⟨x.2, [x.1]⟩ : Chunk))) := by
+  unfold Chunk.iter
+  rw [iterLoop_spec c.cells _ _ (fun k => chunk_getIndex_eq c k) _ 0 (by simp)]
+  simp
 
 end CHText
